@@ -1206,7 +1206,7 @@ def main(tier):
         vlib.static_stage(_Spec, R)
         ctx = Ctx(tier, R)
         ctx.disagreements = []
-        nrand, maxb, all_upto, samples, nmut, full_big = {"quick": (4, 4, 4, 8, 20, 0),
+        nrand, maxb, all_upto, samples, nmut, full_big = {"quick": (2, 4, 3, 5, 10, 0),
                                                             "thorough": (36, 8, 6, 32, 150, 2)}[tier]
         hists = [list(x) for x in DIRECTED]
         for f in sorted(os.listdir(os.path.join(vlib.VERIF, "corpus", PROP))) if os.path.isdir(os.path.join(vlib.VERIF, "corpus", PROP)) else []:
